@@ -36,6 +36,20 @@ package main
 //     LoggerLock".
 //
 // Unknown shapes are errors naming file and line.
+//
+// Normalisations of the hand-offs (DESIGN.md §7):
+//
+//   - "send in a method the loop calls".  A send statement in an unexported method `m` of T whose only mention in the
+//     whole package is ONE call `r.m(…)` on the receiver `r` of another method F of T, standing inside a `for` statement
+//     of F and not inside a `go` statement, a `defer` or a function literal, is executed by F's goroutine at that call:
+//     it is listed under F (the loop), as if the body of `m` stood there.  Whether it blocks is read off `m`'s own
+//     `select`, exactly as before.  Any other use of `m` (second caller, method value, `go r.m(…)`) leaves it listed
+//     under `m`, which `handoff_is_nonblocking` does not accept.
+//   - "the channel by where it comes from".  The `ch` column is the channel expression with local names unfolded at the
+//     head: an identifier defined exactly once in the function (`x := E` or `x, ok := E`, never assigned again, never
+//     `&x`) is replaced by E, through type assertions and parentheses, so `responseChan` with `responseChan :=
+//     ch.(chan *Message)` and `ch, ok := c.Queries.Load(msg.ID)` and the inline `waiting.(chan *Message)` both read
+//     `c.Queries.Load(msg.ID).(chan *Message)`.  Arguments are not unfolded (the key stays as written).
 
 import (
 	"fmt"
@@ -225,7 +239,11 @@ func sf2Handoffs(p *sf2Pkg) []sf2Handoff {
 			if !ok {
 				return true
 			}
-			h := sf2Handoff{Func: p.label + "." + f.display, Chan: render(ss.Chan), Line: p.fset.Position(ss.Pos()).Line}
+			owner := f
+			if lf := sf2LoopCaller(p, f); lf != nil {
+				owner = lf
+			}
+			h := sf2Handoff{Func: p.label + "." + owner.display, Chan: sf2ChanOrigin(f.fd, ss.Chan, 0), Line: p.fset.Position(ss.Pos()).Line}
 			// parent CommClause whose Comm is this send, grandparent (BlockStmt of a) SelectStmt
 			if len(stack) >= 4 {
 				if cc, ok := stack[len(stack)-2].(*ast.CommClause); ok && cc.Comm == ast.Stmt(ss) {
@@ -245,6 +263,126 @@ func sf2Handoffs(p *sf2Pkg) []sf2Handoff {
 		})
 	}
 	return out
+}
+
+// sf2LoopCaller: normalisation "send in a method the loop calls" (file comment): the method whose `for` loop is the
+// only user of f, or nil
+func sf2LoopCaller(p *sf2Pkg, f *sf2Func) *sf2Func {
+	typ, _ := sfRecv(f.fd)
+	name := f.fd.Name.Name
+	if typ == "" || f.fd.Name.IsExported() {
+		return nil
+	}
+	var caller *sf2Func
+	total := 0
+	for _, g := range p.funcs {
+		gtyp, grecv := sfRecv(g.fd)
+		uses, good := 0, 0
+		var stack []ast.Node
+		ast.Inspect(g.fd.Body, func(n ast.Node) bool {
+			if n == nil {
+				stack = stack[:len(stack)-1]
+				return true
+			}
+			stack = append(stack, n)
+			switch x := n.(type) {
+			case *ast.Ident:
+				if x.Name == name {
+					uses++
+				}
+			case *ast.CallExpr:
+				sel, ok := x.Fun.(*ast.SelectorExpr)
+				if !ok || sel.Sel.Name != name {
+					return true
+				}
+				id, ok := sel.X.(*ast.Ident)
+				if !ok || gtyp != typ || id.Name != grecv {
+					return true
+				}
+				inFor := false
+				for _, a := range stack[:len(stack)-1] {
+					switch a.(type) {
+					case *ast.ForStmt:
+						inFor = true
+					case *ast.GoStmt, *ast.DeferStmt, *ast.FuncLit:
+						return true
+					}
+				}
+				if inFor {
+					good++
+				}
+			}
+			return true
+		})
+		if uses != good {
+			return nil // some mention that is not such a call
+		}
+		if good > 0 {
+			caller = g
+			total += good
+		}
+	}
+	if total != 1 || caller == nil || caller == f {
+		return nil
+	}
+	return caller
+}
+
+// sf2ChanOrigin: normalisation "the channel by where it comes from" (file comment)
+func sf2ChanOrigin(fd *ast.FuncDecl, e ast.Expr, depth int) string {
+	switch x := e.(type) {
+	case *ast.ParenExpr:
+		return sf2ChanOrigin(fd, x.X, depth)
+	case *ast.TypeAssertExpr:
+		if x.Type != nil {
+			return sf2ChanOrigin(fd, x.X, depth) + ".(" + render(x.Type) + ")"
+		}
+	case *ast.Ident:
+		if depth >= 4 {
+			break
+		}
+		var def ast.Expr
+		defs, bad := 0, false
+		ast.Inspect(fd.Body, func(n ast.Node) bool {
+			switch y := n.(type) {
+			case *ast.AssignStmt:
+				for i, l := range y.Lhs {
+					if id, ok := l.(*ast.Ident); ok && id.Name == x.Name {
+						defs++
+						switch {
+						case y.Tok != token.DEFINE:
+							bad = true
+						case len(y.Lhs) == len(y.Rhs):
+							def = y.Rhs[i]
+						case len(y.Rhs) == 1 && len(y.Lhs) == 2 && i == 0:
+							def = y.Rhs[0] // comma-ok form: the first value is the expression's value
+						default:
+							bad = true
+						}
+					}
+				}
+			case *ast.IncDecStmt:
+				if id, ok := y.X.(*ast.Ident); ok && id.Name == x.Name {
+					bad = true
+				}
+			case *ast.UnaryExpr:
+				if id, ok := y.X.(*ast.Ident); ok && y.Op == token.AND && id.Name == x.Name {
+					bad = true
+				}
+			case *ast.RangeStmt:
+				for _, l := range []ast.Expr{y.Key, y.Value} {
+					if id, ok := l.(*ast.Ident); ok && id.Name == x.Name {
+						bad = true
+					}
+				}
+			}
+			return true
+		})
+		if defs == 1 && !bad && def != nil {
+			return sf2ChanOrigin(fd, def, depth+1)
+		}
+	}
+	return render(e)
 }
 
 // ---- 2. registries -----------------------------------------------------------------------------------
@@ -722,7 +860,28 @@ func (p *sf2Pkg) doneShape(body *ast.BlockStmt) string {
 
 // sf2ReadsSocket: the body reads a socket itself, or calls by plain name a package-level function that does
 // (normalisation "socket read through a helper", see server_facts.go)
-func sf2ReadsSocket(p *sf2Pkg, body ast.Node, depth int) bool {
+// sf2OwnMethod: `r.m(…)` with r the receiver of `in` and m a method of the same base type (the normalisation "loop body
+// split into methods of the same receiver" of server_facts.go, applied to the spawn facts: such a method reading the
+// socket makes the loop a receive loop, and a value it returns from the loop buffer is a decoded value — that it does
+// not retain the buffer is checked by ServerFacts, which refuses the source otherwise)
+func sf2OwnMethod(p *sf2Pkg, c *ast.CallExpr, in *ast.FuncDecl) *sf2Func {
+	typ, recv := sfRecv(in)
+	sel, ok := c.Fun.(*ast.SelectorExpr)
+	if !ok || typ == "" {
+		return nil
+	}
+	id, ok := sel.X.(*ast.Ident)
+	if !ok || id.Name != recv {
+		return nil
+	}
+	h := p.byName[typ+"."+sel.Sel.Name]
+	if h == nil || h.fd.Recv == nil {
+		return nil
+	}
+	return h
+}
+
+func sf2ReadsSocket(p *sf2Pkg, body ast.Node, depth int, in *ast.FuncDecl) bool {
 	reads := false
 	ast.Inspect(body, func(n ast.Node) bool {
 		if c, ok := n.(*ast.CallExpr); ok {
@@ -731,9 +890,13 @@ func sf2ReadsSocket(p *sf2Pkg, body ast.Node, depth int) bool {
 				switch f.Sel.Name {
 				case "ReadFromUDP", "Accept", "ReadFull":
 					reads = true
+				default:
+					if h := sf2OwnMethod(p, c, in); h != nil && depth < 4 && sf2ReadsSocket(p, h.fd.Body, depth+1, h.fd) {
+						reads = true
+					}
 				}
 			case *ast.Ident:
-				if h := p.byName[f.Name]; h != nil && h.fd.Recv == nil && depth < 4 && sf2ReadsSocket(p, h.fd.Body, depth+1) {
+				if h := p.byName[f.Name]; h != nil && h.fd.Recv == nil && depth < 4 && sf2ReadsSocket(p, h.fd.Body, depth+1, h.fd) {
 					reads = true
 				}
 			}
@@ -932,6 +1095,13 @@ func (p *sf2Pkg) noteStmt(ctx *sf2GoCtx, s ast.Stmt) {
 					}
 				}
 			}
+			if h := sf2OwnMethod(p, c, ctx.fn.fd); h != nil {
+				for _, a := range c.Args {
+					if ctx.outer[rootIdentOf(a)] {
+						ctx.decoded[id.Name] = h.display
+					}
+				}
+			}
 		}
 	case *ast.ExprStmt:
 		if c, ok := x.X.(*ast.CallExpr); ok {
@@ -961,7 +1131,7 @@ func (p *sf2Pkg) walkGo(ctx *sf2GoCtx, list []ast.Stmt, out *[]sf2Spawn) error {
 				}
 			case *ast.ForStmt:
 				c := ctx.clone()
-				if sf2ReadsSocket(p, x.Body, 0) {
+				if sf2ReadsSocket(p, x.Body, 0, ctx.fn.fd) {
 					c.inLoop = true
 				}
 				return p.walkGo(c, x.Body.List, out)
